@@ -7,7 +7,7 @@ from concurrent.futures import ThreadPoolExecutor
 ENV = dict(os.environ, GOFLAGS='-mod=mod', GOPROXY='off', GOSUMDB='off', GOTOOLCHAIN='local')
 root = '/verif/seeded'
 seeds = sorted(d for d in os.listdir(root) if os.path.isdir(os.path.join(root, d)))
-PROPS = subprocess.run(['/verif/bin/crverif', '-list'], capture_output=True, text=True).stdout.split()
+PROPS = subprocess.run([os.environ.get('CRVERIF_BIN', '/verif/bin/crverif'), '-list'], capture_output=True, text=True).stdout.split()
 def run(sd):
     sdir = os.path.join(root, sd)
     meta = json.load(open(os.path.join(sdir, 'meta.json')))
@@ -20,7 +20,7 @@ def run(sd):
         det = {}
         for p in PROPS:
             ev = tempfile.mkdtemp(prefix='ev-', dir='/tmp')
-            rr = subprocess.run(['/verif/bin/crverif', '-property', p, '-evidence', ev], env=dict(ENV, VERIF_REPO=d), capture_output=True, text=True)
+            rr = subprocess.run([os.environ.get('CRVERIF_BIN', '/verif/bin/crverif'), '-property', p, '-evidence', ev], env=dict(ENV, VERIF_REPO=d), capture_output=True, text=True)
             shutil.rmtree(ev, ignore_errors=True)
             if rr.returncode == 1:
                 lines = [l for l in (rr.stdout + rr.stderr).splitlines() if 'rule=' in l and 'KNOWN' not in l]
